@@ -62,25 +62,6 @@ theorem c14_start_shutdown (h1 h2 : Hook) (nt : Bool) (ps pend : List Nat) (f : 
   rw [start_not_started _ (by simp [init])]
   rw [shutdown_started f _ rfl]
 
-/-- a second cycle restores the hooks of the SECOND cycle: pre-existing A, start, shutdown, the application installs
-    B, start, shutdown — the hooks are B (not the A remembered from the first start). -/
-theorem c14_second_cycle (a1 a2 b1 b2 : Hook) (ps pend : List Nat) (f g : Faults) :
-    (run [.start, .shutdown f, .hostSet b1 b2, .start, .shutdown g] (init a1 a2 false ps pend)).hooks = (b1, b2) := by
-  have h := (c14_restore a1 a2 false ps pend [.start, .shutdown f, .hostSet b1 b2, .start, .shutdown g]).1
-  have hst : (run [.start, .shutdown f, .hostSet b1 b2, .start, .shutdown g] (init a1 a2 false ps pend)).started
-      = false := by
-    simp only [run, List.foldl, step]
-    rw [start_not_started _ (by simp [init]), shutdown_started f _ rfl]
-    simp only [hostSet]
-    split
-    · rw [start_not_started _ rfl, shutdown_started g _ rfl]
-    · rw [start_not_started _ rfl, shutdown_started g _ rfl]
-  have hv := h hst
-  rw [hv]
-  simp only [runH, hostView, step]
-  rw [start_not_started _ (by simp [init]), shutdown_started f _ rfl]
-  simp [thShutdown, thStart, thInit, init]
-
 /-- **shutdown completes under any fault subset** — whichever plugins' `shutdown()` raise (either class) and
     whichever pending sends fail, shutting a started agent down does not raise, leaves it not started, the poll
     timer stopped, every pending send waited for, the task handler closed, and has called `shutdown()` of
@@ -178,6 +159,14 @@ example :
     d.hooks = (.host 5, .none) ∧ d.started = false ∧ armed d = 0 ∧ d.shutCalls = [10, 11, 10, 11] ∧
     d.pending = [] := by
   decide
+
+/-- a second cycle restores the hooks of the SECOND cycle: pre-existing A, start, shutdown, the application installs
+    B, start, shutdown — the hooks are B, not the A remembered from the first start (instance of `c14_restore`). -/
+example :
+    (run [.start, .shutdown allFail, .hostSet (.host 3) (.host 4), .start, .shutdown allFail]
+      (init (.host 1) (.host 2) false [10] [])).hooks = (.host 3, .host 4) ∧
+    (runH [.start, .shutdown allFail, .hostSet (.host 3) (.host 4), .start, .shutdown allFail]
+      (init (.host 1) (.host 2) false [10] [], (.host 1, .host 2))).2 = (.host 3, .host 4) := by decide
 
 /-- while started with tracing enabled the hooks are the agent's, and triggers are armed -/
 example :
